@@ -31,7 +31,10 @@ def payloads(draw):
 @st.composite
 def cases(draw, tier):
     nt = draw(st.integers(2, 7))
-    targets = ["t%d" % i for i in range(nt)]
+    # some targets live in a sub-directory: their dependents in the other directory name them through `sub/` or
+    # `../`, so one target is reached under several spellings
+    use_sub = draw(st.integers(0, 99)) < 45
+    targets = [("sub/" if use_sub and draw(st.integers(0, 99)) < 45 else "") + "t%d" % i for i in range(nt)]
     dofiles = {}
     errfiles = {}
     expect = {}
@@ -95,7 +98,7 @@ def cases(draw, tier):
         for c, piece in enumerate(pieces):
             if c == dep_at and deps:
                 body.append(["dep", 1, deps])
-            name = "err.%s.%d" % (t, c)
+            name = "err.%s.%d" % (t.replace("/", "_"), c)
             errfiles[name] = piece
             body.append(["err", name])
             mid_line = not piece.endswith("\n")
@@ -109,9 +112,13 @@ def cases(draw, tier):
         expect[t] = lines
     top = targets[-1]
     # make sure the top depends on something so that nesting exists
-    proj = {"dirs": [""], "sources": [], "dofiles": dofiles, "targets": targets, "watch": [], "errfiles": errfiles}
+    proj = {"dirs": ["", "sub"], "sources": [], "dofiles": dofiles, "targets": targets, "watch": [],
+            "errfiles": errfiles}
     cfg = {"log": 1, "keep_going": 0, "jobs": draw(st.sampled_from([1, 1, 2, 3, 4])),
-           "roots": sorted(set([top] + [targets[draw(st.integers(0, nt - 1))] for _ in range(draw(st.integers(0, 2)))]))}
+           # in dependency order (a target only depends on lower-numbered ones): `redo X Y` with Y in X's closure
+           # would legitimately build Y twice (statement-silent shape, DESIGN §5)
+           "roots": sorted(set([top] + [targets[draw(st.integers(0, nt - 1))] for _ in range(draw(st.integers(0, 2)))]),
+                           key=lambda t_: int(t_.rsplit("t", 1)[1]))}
     return {"project": proj, "cfg": cfg, "ops": [], "expect": expect, "d16_excluded": d16_moved,
             "record_like_line": has_record_line}
 
@@ -130,7 +137,7 @@ def parse_log(text):
         if raw == "":
             continue
         mm = META.match(raw)
-        if mm and re.match(r"L t\d+ \d+( |$)", mm.group(4)):
+        if mm and re.match(r"L (?:sub/)?t\d+ \d+( |$)", mm.group(4)):
             raw = mm.group(4)      # a script's own line that has the form of a record: judged like any other line
             mm = None
         if mm:
@@ -246,6 +253,13 @@ def run_case(case, tier):
             raise runner.Inconclusive("timeout")
         text = res.err.decode("utf-8", "replace")
         ctx = {"cmd": {"argv": argv, "rc": res.rc, "err": text[-3000:]}, "executed": ex}
+        if case.get("record_like_line") and (res.rc != 0 or "panicked at" in text):
+            # a script line in record form that is not even a well-formed record of its kind (`done` without a
+            # status) makes the viewer give up: the same in-band limitation as D15, this property's subject
+            out.events["c18:whole-line-has-the-form-of-a-record"] += 1
+            out.violation = {"property": "C18", "clause": "log-lines", "step": 0, "detail": ctx,
+                             "sig": {"symptom": "log-lines", "partial_across_dep": False, "record_like_line": True}}
+            return out
         if res.rc == 101 or "panicked at" in text:
             out.violation = {"property": "C09", "clause": "panic", "detail": ctx,
                              "sig": {"symptom": hist.panic_sig(text)}, "step": 0}
@@ -284,6 +298,8 @@ def run_case(case, tier):
             out.events["c18:excluded-by-construction(D16 shape moved to a line boundary)"] += 1
         if case.get("record_like_line"):
             out.events["c18:whole-line-has-the-form-of-a-record"] += 1
+        if any("/" in t for t in ex) and any("/" not in t for t in ex):
+            out.events["c18:targets-in-two-directories"] += 1
         pad = partial_across_dep(case, set(ex))
         if pad:
             out.events["c18:partial-line-pending-across-redo-ifchange"] += 1
